@@ -57,24 +57,29 @@ theorem evalVariable_mono (st : Static) (defs : Defs) (c : RCtx) (level : Nat) (
       | _ => rw [hv] at hh; simpa using hh
   unfold evalVariable at h ⊢
   by_cases hl : (level == 0) = true
-  · cases hp : path.head? with
-    | none =>
-      simp only [hl, hp, if_true] at h ⊢
+  · cases path with
+    | nil =>
+      simp only [hl, if_true] at h ⊢
       exact tail (guessOf c) rfl h
-    | some n =>
-      by_cases hd : (n == "$" || n == "pc") = true
-      · simp only [hl, hp, hd, if_true] at h ⊢
-        cases ha : evalAddress defs c c.canGuess with
-        | error e => rw [ha] at h; cases h
-        | ok a =>
-          rw [ha] at h
-          rw [guessOf_canGuess, evalAddress_mono defs c _ a ha]
-          exact h
-      · by_cases hb : isAsmBuiltinName n = true
-        · simp only [hl, hp, hd, hb, if_true, Bool.false_eq_true, if_false] at h ⊢
-          exact h
-        · simp only [hl, hp, hd, hb, if_true, Bool.false_eq_true, if_false] at h ⊢
-          exact tail (guessOf c) rfl h
+    | cons n rest =>
+      cases rest with
+      | cons m rest' =>
+        simp only [hl, if_true] at h ⊢
+        exact tail (guessOf c) rfl h
+      | nil =>
+        by_cases hd : (n == "$" || n == "pc") = true
+        · simp only [hl, hd, if_true] at h ⊢
+          cases ha : evalAddress defs c c.canGuess with
+          | error e => rw [ha] at h; cases h
+          | ok a =>
+            rw [ha] at h
+            rw [guessOf_canGuess, evalAddress_mono defs c _ a ha]
+            exact h
+        · by_cases hb : isAsmBuiltinName n = true
+          · simp only [hl, hd, hb, if_true, Bool.false_eq_true, if_false] at h ⊢
+            exact h
+          · simp only [hl, hd, hb, if_true, Bool.false_eq_true, if_false] at h ⊢
+            exact tail (guessOf c) rfl h
   · simp only [hl, Bool.false_eq_true, if_false] at h ⊢
     exact tail (guessOf c) rfl h
 
